@@ -713,6 +713,17 @@ func NewExocoreApp(
 		app.EpochsKeeper,
 	)
 
+	// the operator and delegation hooks (implemented by the dogfood keeper) must be set before the
+	// keepers are handed over BY VALUE below: a copy taken earlier keeps nil hooks forever, and the
+	// delegation precompile would start undelegations that the dogfood module never hears about
+	// (no hold until the end of the unbonding epochs).
+	(&app.OperatorKeeper).SetHooks(
+		app.StakingKeeper.OperatorHooks(),
+	)
+	(&app.DelegationKeeper).SetHooks(
+		app.StakingKeeper.DelegationHooks(),
+	)
+
 	app.EvmKeeper.WithPrecompiles(
 		evmkeeper.AvailablePrecompiles(
 			app.AuthzKeeper,
@@ -788,14 +799,7 @@ func NewExocoreApp(
 	app.IBCKeeper.SetRouter(ibcRouter)
 
 	// set the hooks at the end, after all modules are instantiated.
-	(&app.OperatorKeeper).SetHooks(
-		app.StakingKeeper.OperatorHooks(),
-	)
-
-	(&app.DelegationKeeper).SetHooks(
-		app.StakingKeeper.DelegationHooks(),
-	)
-
+	// (the operator and delegation hooks are set earlier, before the precompiles copy the keepers)
 	(&app.EpochsKeeper).SetHooks(
 		epochstypes.NewMultiEpochHooks(
 			app.DistrKeeper.EpochsHooks(),      // come first for using the voting power of last epoch
